@@ -12,6 +12,9 @@ CHECKS = {
     "C04": ("c04", False),
     "C07": ("c07", False),
     "C12": ("c12", False),
+    "C08": ("c08", False),
+    "C20": ("c20", False),
+    "C11": ("c11", False),
 }
 
 
